@@ -659,13 +659,21 @@ def signatures(row, law):
     return ["%s:MergeDirective2+%s:%s" % (law, "bundle" if md["bundle"] else "branch", feats)]
 
 
-def selftest_rows(rows):
-    """Binding self-test: the observation the SPECIFICATION predicts for a recorded case must be accepted by the Trace module,
-    corrupted copies of it must be rejected, each by its law."""
-    b = next((r for r in rows if r["kind"] == "bundle" and len(r["spec"]["written"]) >= 2 and r["c"]["base"]), None)
-    m = next((r for r in rows if r["kind"] == "md" and all(r["c"]["md"][k] for k in ("msg", "patch", "bundle")) and r["spec"]["lcas"]), None)
+def selftest_rows(hists):
+    """Binding self-test: the observation the SPECIFICATION predicts for an exported case must be accepted by the Trace
+    module, corrupted copies of it must be rejected, each by its law."""
+    b = m = None
+    for h in hists:
+        P = [list(ps) for ps in h["P"]]
+        for case in h["bcases"]:
+            if b is None and case["base"] and len(case["written"]) >= 2:
+                b = {"c": {"P": P, "base": case["base"], "target": case["target"], "fmt": "4"}, "spec": case}
+        for case in h["mcases"]:
+            if m is None and case["lcas"] and case["submit"] not in case["lcas"]:
+                m = {"c": {"P": P, "submit": case["submit"], "target": case["target"],
+                           "md": {"msg": True, "patch": True, "bundle": True, "src": False}, "merge": True}, "spec": case}
     if b is None or m is None:
-        raise core.MachineryError("binding self-test: no suitable recorded case")
+        raise core.MachineryError("binding self-test: no suitable exported case")
     P, n = b["c"]["P"], len(b["c"]["P"])
     after = sorted(b["spec"]["after"])
     tsrc = ["t%d" % k for k in range(1, n + 1)]
@@ -708,10 +716,10 @@ def selftest_rows(rows):
     return out
 
 
-def judge(ctx, rows):
+def judge(ctx, rows, hists):
     slim = [_slim(r) for r in rows]
     by_id = {id(s): r for s, r in zip(slim, rows)}
-    probes = selftest_rows(rows)
+    probes = selftest_rows(hists)
     expected = {id(p): law for p, law in probes}
     caught = {id(p) for p, law in probes if law is None}
     for srow, failed, drift in table.judge(ctx, "BundleTrace", slim + [p for p, _ in probes], chunk=4000, workers=4, timeout=3000):
@@ -811,7 +819,7 @@ def run(ctx):
     for r in (rows[len(rows) // 3], rows[-1]):
         ctx.sample({"kind": r["kind"], "c": r["c"], "meta": r["meta"],
                     "impl": {k: v for k, v in r["impl"].items() if k not in ("tsrc", "ttgt")}})
-    judge(ctx, rows)
+    judge(ctx, rows, hists)
 
 
 def replay(ctx, rep):
